@@ -273,6 +273,8 @@ class Runner:
                     self.tainted = True
                 if str.__str__(t) != t._s.to_str() or str.__str__(t) != t.to_str() or ('%s' % t) != t._s.to_str():
                     viol.append(('C13', 'ansistr_payload', 'payload %r but rendering %r' % (str.__str__(t), t._s.to_str())))
+                    # str(a) is a rendering too: it no longer shows the text and styles the object reports
+                    viol.append(('C01', 'str_eq', 'str() of an AnsiStr is %r, its to_str() %r' % (str.__str__(t), t._s.to_str())))
                     self.tainted = True
             except Exception as e:   # noqa
                 viol.append(('C13', 'ansistr_payload', 'an AnsiStr made earlier can no longer be observed: %r' % (e,)))
